@@ -28,7 +28,14 @@ Import ListNotations.
 From SV Require Import C17.Toposort.
 
 (* keys of an insertion-ordered dict after `d[k] = ...`: an existing key keeps
-   its place, a new key goes to the end *)
+   its place, a new key goes to the end.
+   NOTE (review round 4, item 4): the overwrite branch (`x =? k`) is never
+   reached on the evaluated path: `toposort` never returns a repeated index, so
+   `conn_keys (toposort es) = toposort es` and `walk_sample` is a plain `filter`
+   on every input the harness produces (theorem `conn_keys_is_toposort` says so
+   for trees).  Only `ex_stale_dict_changes_order` reaches that branch; the
+   dict is kept because it is what the code writes, not because the
+   correspondence could tell it from a list. *)
 Fixpoint dict_set (k : nat) (keys : list nat) : list nat :=
   match keys with
   | [] => [k]
@@ -97,3 +104,19 @@ Definition walk_case := (list edge * list (sample * list nat))%type.
 Definition run_walk (c : walk_case) : option (list (list nat)) * list bool :=
   (walk_batch (fst c) (map fst (snd c)),
    map (fun po => walk_ok (fst c) (fst po) (snd po)) (snd c)).
+
+(* --- evaluation entry point for the first half (Toposort.v) -------------- *)
+
+(* an edge list and the order the implementation returned for it (None: it
+   raised).  Result: the model's order, whether the edge list is inside the
+   domain of the theorems (`is_tree`, sound AND complete for `arborescence`:
+   `is_tree_spec`), and the property's boolean statement `order_ok` on the
+   IMPLEMENTATION's output (`order_ok_spec`).  The harness requires
+   `is_tree = true` on every generated tree, `is_tree = false` on every
+   polytree, and `order_ok = true` whenever `is_tree = true`. *)
+Definition topo_case := (list edge * option (list nat))%type.
+
+Definition run_topo (c : topo_case) : option (list nat) * (bool * bool) :=
+  (toposort (fst c),
+   (is_tree (fst c),
+    match snd c with Some out => order_ok (fst c) out | None => false end)).
